@@ -53,6 +53,17 @@ Theorem cache_unprotected_writers_are_clear_resize : forall w o f,
   In (w, o, f) (offending_all cache_skeleton) -> In w k1_methods.
 Proof. apply all_writers_spec. vm_compute. reflexivity. Qed.
 
+(* K1 exactly as it is documented (lib/props/C08.py, notes/C08.md): the writer is Clear or Resize, the other party
+   is one of the methods that read the swapped fields WITHOUT any lock — never Sweep or getCurrentPartition, which
+   take currentPartitionMux — and the field is one of the four that Clear/Resize replace *)
+Definition k1_unlocked_readers : list string :=
+  ["Capacity"; "Contains"; "Get"; "Set"; "Delete"; "Len"; "Keys"; "Values"; "Resize"].
+Definition k1_fields : list string := ["partitions"; "valuePartitionIndex"; "maxPartitions"; "partitionCapacity"].
+
+Theorem cache_k1_exact : forall w o f,
+  In (w, o, f) (offending_all cache_skeleton) -> In w k1_methods /\ In o k1_unlocked_readers /\ In f k1_fields.
+Proof. apply all_within_spec. vm_compute. reflexivity. Qed.
+
 (* sanity: what the skeleton says about the F15 shape — the fast path reads currentPartitionId under RLock, the slow
    path re-reads and writes it under Lock *)
 Example cache_getCurrentPartition_shape :
